@@ -28,11 +28,20 @@ import (
 
 const c20ExecWait = 20 * time.Second
 
+var (
+	c20ExecPassed int
+	c20ExecFailed bool
+)
+
 func TestVerifC20Exec(t *testing.T) {
 	rec := kit.R("TestVerifC20Exec")
 	t.Cleanup(kit.Flush)
+	limit := kit.EnvInt("C20_EXEC_CASES", 6) // see c20SessPassed
 
 	rapid.Check(t, func(t *rapid.T) {
+		if !c20ExecFailed && c20ExecPassed >= limit {
+			return
+		}
 		aa := rapid.Bool().Draw(t, "alwaysAvailable")
 		ops := rapid.SliceOfN(rapid.SampledFrom([]string{"attach", "attach", "detach", "bounce"}), 2, 7).Draw(t, "ops")
 
@@ -181,6 +190,7 @@ func TestVerifC20Exec(t *testing.T) {
 		} {
 			ex, lg := traceCount(x.traceTag), c20Count(lines, "[path x] "+x.record)
 			if ex != x.want || lg != x.want {
+				c20ExecFailed = true
 				t.Fatalf("%s: executed %d times according to its trace file, %d records in the log, the history implies %d\n[alwaysAvailable=%v] %s",
 					x.what, ex, lg, x.want, aa, strings.Join(hist, " ; "))
 			}
@@ -196,6 +206,7 @@ func TestVerifC20Exec(t *testing.T) {
 			cls = append(cls, "multi-online")
 		}
 		rec.Case(availOpens >= 2 || onlineOpens >= 2, fmt.Sprintf("aa=%v %s", aa, strings.Join(hist, " ; ")), cls...)
+		c20ExecPassed++
 	})
 }
 
